@@ -69,10 +69,20 @@ func (m *ttlModel) exp(d time.Duration, now int64) int64 {
 		d = m.def
 	}
 	if d > 0 {
+		if now+int64(d) < now {
+			// call time + d lies beyond what int64 nanoseconds can express (year 2262):
+			// the instant is unspecified, but it is certainly not in the past - the
+			// entry must stay visible for any observable time
+			return farFuture
+		}
 		return now + int64(d)
 	}
 	return 0
 }
+
+// farFuture marks an expiry instant beyond the representable range: visibility
+// is checked, the reported instant / remaining time is not.
+const farFuture = int64(math.MaxInt64)
 
 func (m *ttlModel) vis(k int, now int64) (*ment, bool) {
 	e := m.m[k]
@@ -432,7 +442,9 @@ func (sr *seqRunner) runSeqCase(cs *seqCase) (nontrivial bool, fp uint64) {
 			case "GetWithExpiration":
 				if hit {
 					val(e.v, true)
-					if e.e == 0 {
+					if e.e == farFuture {
+						// unspecified instant
+					} else if e.e == 0 {
 						if !r.T.IsZero() {
 							bad("expiry", "GetWithExpiration reports an instant for a never-expiring entry", "%s: GetWithExpiration(k%d) = %v, want zero time", step, name, op.K, r.T)
 						}
@@ -449,7 +461,7 @@ func (sr *seqRunner) runSeqCase(cs *seqCase) (nontrivial bool, fp uint64) {
 					if e.e != 0 {
 						want = time.Duration(e.e - now)
 					}
-					if r.TTL != want {
+					if r.TTL != want && e.e != farFuture {
 						bad("expiry", "GetWithTTL reports wrong remaining time", "%s: GetWithTTL(k%d) = %d, model %d", step, name, op.K, r.TTL, want)
 					}
 				} else {
